@@ -339,6 +339,18 @@ def gen_model(r, *, budget=6000, max_T=4, force=None):
             funcs.append(_fn("co_filter", ds_, ["not", conj], ints=True))
             meta["cofilter"] = ds_
 
+    if "intfilter" in force:
+        # filters that return the integers 0 / 1 instead of booleans (an indicator): "holds" means "is non-zero"
+        for f_ in funcs:
+            if f_["name"].endswith("_filter"):
+                f_["body"] = ["ite", f_["body"], N(1), N(0)]
+                meta["intfilter"] = True
+    if "stackedfilter" in force:
+        for f_ in funcs:
+            if f_["name"].endswith("_filter") and f_["body"][0] in ("or", "and"):
+                f_["stacked"] = True
+                meta["stackedfilter"] = True
+
     # ---- transitions
     stoch = []
     for s in snames:
